@@ -822,10 +822,13 @@ REGISTRY = {
     'C14': dict(level='proof', gen=gen_mut(('match', 'match', 'match', 'set', 'pop')), oracle=lambda c, o: leaks_C14(o), nontrivial=nontrivial_m(('assign', 'del', 'mpop')),
                 rule="histories of m.data = v / del m.data / m.pop(default) on held matches obtained directly, through "
                      "wildcards, recursion, filters; interleaved with sets and pops", obligations=[]),
-    'C16': dict(level='proof', gen=lambda rng, tier: gen_C16q(rng, tier) + gen_mut(('set', 'cascade', 'pop'))(rng, 'quick' if tier == 'quick' else 'thorough')[:sized(tier, 800, 8000)],
+    'C16': dict(level='proof', gen=lambda rng, tier: gen_C16q(rng, tier) + gen_mut(('set', 'cascade', 'pop'))(rng, 'quick' if tier == 'quick' else 'thorough')[:sized(tier, 800, 8000)]
+                + [{'family': 'b', 'case': bcase.gen_bcase(rng)} for _ in range(sized(tier, 300, 3000))],
                 oracle=lambda c, o: leaks(o), nontrivial=lambda c, o: len(scan(o, 'raise')) >= 2,
                 rule="malformed stream: paths drawn independently of the document over the full grammar x every API function x "
-                     "sources; plus mutation histories; non-trivial = >= 2 exceptions observed", obligations=[]),
+                     "sources; plus mutation histories; plus builder histories with unsupported index types (float, None, "
+                     "dict, list), the reserved attribute name and successive recursive steps (PathSyntaxError at "
+                     "construction); non-trivial = >= 2 exceptions observed", obligations=[]),
 }
 
 
